@@ -41,6 +41,22 @@ CLAIMS = {
             "Exploration: records are written by an encoder that follows the kernel's formatting rules and shares no code with the parser; Data() must return the original bytes for every decoded field, leave plain fields alone, drop exactly the written placeholders and derive result/unset/errno/arch/syscall by the fixed rules. Errno names are compared with the kernel headers, syscall names with the exported tables, exhaustively.",
             "Value domain as the property states; see DESIGN.md section 7 item 7 for every exclusion.",
             "DESIGN.md section 5, C12"),
+    "C06": ("property testing (rapid) by construction: rule grammar whose leaves carry the intended wire value -> Build -> independent audit_rule_data decoder with kernel-header constants; exhaustive syscall-name, syscall-number and field x operator x boundary grids",
+            "Exploration: every accepted rule (struct route and flags route) is decoded at fixed UAPI offsets by a decoder that knows nothing of package rule and compared word by word with what the generator asked for (list, action, prepend bit, triples in order, joined keys, back-to-back strings, buflen, padding, exact syscall bits). Field/operator/list/action codes, permission bits, file types, arch codes, errnos and x86_64/i386/aarch64 syscall numbers come from a snapshot of the kernel headers.",
+            "Kernel header snapshot (internal/uapi) is trusted; rejection is never demanded; see DESIGN.md section 7 for the flags-route restrictions.",
+            "DESIGN.md section 5, C06"),
+    "C07": ("round-trip property testing (rapid): Build -> ToCommandLine -> flags.Parse -> Build byte equality and text fixpoint, with an independent decoder to explain differences; syscall number/name sweeps",
+            "Exploration: rules of the C06 grammar restricted to the property's domain go through decode -> text -> encode; bytes must be identical and the text a fixpoint. One known finding (arch filter hoisted to the front) is matched by its exact shape — equality up to moving the arch triple — so every other difference is still a violation.",
+            "amd64, resolveIds=false; strings without whitespace/quotes/backslash; perm rules use scratch file/dir so that the -w form agrees with the filesystem.",
+            "DESIGN.md section 5, C07"),
+    "C13": ("totality property testing (rapid) + systematic header-word boundary sweep + native fuzzing (thorough): panic recovery, hang watchdog, allocation bound, independent structural validation of accepted bytes",
+            "Exploration: arbitrary Rule structs, byte slices (random, truncated, every catalogue rule with each of its 260 header words replaced by 11 boundary values; thorough: overflowing pairs) and rule lines are pushed through Build / ToCommandLine / flags.Parse; no panic, no hang, allocation <= 1 MiB + 64 x input, and accepted bytes must be structurally valid per an independent decoder. A worker that dies from a fatal error leaves the running case in a crash file that becomes the replay.",
+            "Absence of panics is sampled; typed-nil rule pointers excluded.",
+            "DESIGN.md section 5, C13"),
+    "C14": ("property testing (rapid) over generated token lists with a reference interpretation independent of package flag",
+            "Exploration: token lists mixing valid and invalid flag combinations (values with spaces, '=', operator characters, junk before/after, repeated and positional tokens, -x=v/--x forms) are rendered with the harness' own shell quoting; whatever flags.Parse accepts must reflect every token (filters partition their argument completely, lists are complete, one rule family, exactly one of -a/-A).",
+            "Acceptance is never demanded; whitespace trimming at item ends and dropping of empty list items are tolerated.",
+            "DESIGN.md section 5, C14"),
 }
 
 NOT_YET = "check not built yet (construction in progress; see DESIGN.md section 11)"
